@@ -360,6 +360,110 @@ def work_cells(job):
     return acc.result()
 
 
+def tilde_match(pat, text):
+    """wildcard match with Excel's escapes: ~* ~? ~~ are the literal characters * ? ~"""
+    rx, i = '', 0
+    while i < len(pat):
+        ch = pat[i]
+        if ch == '~' and i + 1 < len(pat) and pat[i + 1] in '*?~':
+            rx += re.escape(pat[i + 1])
+            i += 2
+            continue
+        rx += '.*' if ch == '*' else '.' if ch == '?' else re.escape(ch)
+        i += 1
+    return re.fullmatch(rx, text, re.I | re.S) is not None
+
+
+TILDE_CELLS = ['a?c', 'abc', 'a*c', 'a~c', '?', '*', 'x?', 'why?', 'why?x', '5*2', '~', 'a~?c']
+TILDE_CRITERIA = ['a~?c', '~?', '*~?', '*~?*', '~?*', '~**', '*~*', '*~**', 'a~*c', '~~', 'a~~c', 'why~?*', '5~**', '*~~*', 'a~??c', '?~?', 'a~?*',
+                  '=~?', '=*~?*', '=a~*c']
+
+
+def work_extra(job):
+    """(a) tilde escapes in wildcard criteria; (b) criteria ranges of equal cell count but different shape are an error
+    value, never a number; (c) a criterion given twice (same range, or a second range holding the same values) selects
+    what it selects once"""
+    acc = Acc()
+    ev = feval.Evaluator()
+    n = len(TILDE_CELLS)
+    env0 = {f'A{i + 1}': c for i, c in enumerate(TILDE_CELLS)}
+    env0.update({f'B{i + 1}': 2 ** i for i in range(n)})
+    rng, vrng = f'A1:A{n}', f'B1:B{n}'
+    for crit in TILDE_CRITERIA:
+        pat = crit[1:] if crit.startswith('=') else crit
+        for neg in (False, True):
+            k1 = ('<>' + pat) if neg else crit
+            want = [i for i, c in enumerate(TILDE_CELLS) if tilde_match(pat, c) != neg]
+            env = dict(env0, K1=k1)
+            for fn, f in (('COUNT', f'=COUNTIF({rng},K1)'), ('COUNT', f'=COUNTIFS({rng},K1)'), ('SUM', f'=SUMIF({rng},K1,{vrng})'),
+                          ('SUM', f'=SUMIFS({vrng},{rng},K1)'), ('MAX', f'=MAXIFS({vrng},{rng},K1)')):
+                o = ev.run(f, env)
+                acc.add('evaluations')
+                acc.add('states')
+                acc.add('distinct_nontrivial')
+                exp = len(want) if fn == 'COUNT' else sum(2 ** i for i in want) if fn == 'SUM' else max([2 ** i for i in want] or [0])
+                case = dict(kind='extra', sub='tilde', fn=f.split('(')[0][1:], formula=f, crit=k1)
+                if o[0] != 'ok':
+                    acc.violation(dict(case, verdict='raised'), f'{f} over {TILDE_CELLS}, criterion {k1!r} raised {o[1]}: {o[2][-100:]}')
+                elif not W.veq(o[1], exp):
+                    acc.violation(dict(case, verdict='wrong-selection', observed=jsonable(o[1]), expected=exp),
+                                  f'{f} over {TILDE_CELLS}, criterion {k1!r} = {o[1]!r}, expected {exp!r} (positions {want}: ~* ~? ~~ are literal characters)')
+    # (b) same number of cells, different shape
+    env = {}
+    for i, a in enumerate('ABCDEF'):
+        for r_ in range(1, 7):
+            env[f'{a}{r_}'] = (i + 1) * 10 + r_
+    shapes = [('A1:A3', 'B1:D1'), ('B1:D1', 'A1:A3'), ('A1:B3', 'C1:E2'), ('C1:E2', 'A1:B3'), ('A1:A6', 'B1:C3'), ('A1:F1', 'A2:B4'),
+              ('A1:A4', 'B1:C2'), ('B1:C2', 'A1:D1')]
+    for ra, rb in shapes:
+        for c1, c2 in (('>0', '>0'), ('>1', '>10'), ('<>x', '>0')):
+            env.update(K1=c1, K2=c2)
+            for f in (f'=COUNTIFS({ra},K1,{rb},K2)', f'=SUMIFS({rb},{ra},K1)', f'=AVERAGEIFS({rb},{ra},K1)', f'=MAXIFS({rb},{ra},K1)',
+                      f'=MINIFS({rb},{ra},K1)', f'=SUMIFS({ra},{ra},K1,{rb},K2)'):
+                o = ev.run(f, env)
+                acc.add('evaluations')
+                acc.add('states')
+                case = dict(kind='extra', sub='shape', fn=f.split('(')[0][1:], formula=f, crit=[c1, c2])
+                if o[0] != 'ok':
+                    acc.violation(dict(case, verdict='raised'), f'{f} (ranges of equal size, different shape) raised {o[1]}: {o[2][-100:]}')
+                elif not (isinstance(o[1], str) and o[1].startswith('#')):
+                    acc.violation(dict(case, verdict='number-from-mismatched-shapes', observed=jsonable(o[1])),
+                                  f'{f}: the ranges have the same number of cells but different shapes, there are no common positions; got {o[1]!r} instead of an error value')
+    # (c) the same criterion twice
+    data = [3, 1, 'apple', 2, 3, None, 'Apple', 1]
+    env = {}
+    for i, v in enumerate(data):
+        if v is not None:
+            env[f'A{i + 1}'] = v
+            env[f'C{i + 1}'] = v            # a second range holding the same values
+        env[f'B{i + 1}'] = 2 ** i
+    nn = len(data)
+    ra, rc, rv = f'A1:A{nn}', f'C1:C{nn}', f'B1:B{nn}'
+    for crit in (3, 1, '>1', '<>1', 'apple', 'a*', '<>apple', '>=3', '=3', '<>'):
+        env.update(K1=crit, K2=crit)
+        for once, twice_list in ((f'=COUNTIFS({ra},K1)', [f'=COUNTIFS({ra},K1,{ra},K1)', f'=COUNTIFS({ra},K1,{ra},K2)', f'=COUNTIFS({ra},K1,{rc},K1)',
+                                                         f'=COUNTIFS({ra},K1,{rc},K2,{ra},K1)']),
+                                 (f'=SUMIFS({rv},{ra},K1)', [f'=SUMIFS({rv},{ra},K1,{ra},K1)', f'=SUMIFS({rv},{ra},K1,{rc},K1)']),
+                                 (f'=AVERAGEIFS({rv},{ra},K1)', [f'=AVERAGEIFS({rv},{ra},K1,{ra},K1)', f'=AVERAGEIFS({rv},{ra},K1,{rc},K2)']),
+                                 (f'=MAXIFS({rv},{ra},K1)', [f'=MAXIFS({rv},{ra},K1,{ra},K1)', f'=MAXIFS({rv},{ra},K1,{rc},K1)']),
+                                 (f'=MINIFS({rv},{ra},K1)', [f'=MINIFS({rv},{ra},K1,{ra},K2)', f'=MINIFS({rv},{ra},K1,{rc},K1)'])):
+            o1 = ev.run(once, env)
+            acc.add('evaluations')
+            for f in twice_list:
+                o2 = ev.run(f, env)
+                acc.add('evaluations')
+                acc.add('states')
+                acc.add('distinct_nontrivial')
+                case = dict(kind='extra', sub='twice', fn=f.split('(')[0][1:], formula=f, crit=crit)
+                if o2[0] != 'ok':
+                    acc.violation(dict(case, verdict='raised'), f'{f} with criterion {crit!r} raised {o2[1]}: {o2[2][-100:]}')
+                elif o1[0] == 'ok' and not W.vclose(o1[1], o2[1], rel=1e-12, abs_=1e-12):
+                    acc.violation(dict(case, verdict='criterion-twice-differs', observed=jsonable(o2[1]), expected=jsonable(o1[1])),
+                                  f'{f} = {o2[1]!r} but {once} = {o1[1]!r} (data {data}, criterion {crit!r}): a criterion given twice selects what it selects once')
+    acc.counts['transitions'] = acc.counts.get('evaluations', 0)
+    return acc.result()
+
+
 def run(ctx):
     m = 64
     m = 64 if not ctx.thorough else 256
@@ -367,6 +471,7 @@ def run(ctx):
     ctx.pmap(work_single, [(k, 16, 3 if ctx.thorough else 2, False, True) for k in range(16)], timeout=6000)
     ctx.pmap(work_multi, [(k, 32) for k in range(32)], timeout=6000)
     ctx.pmap(work_cells, [(0,)], timeout=600)
+    ctx.pmap(work_extra, [(0,)], timeout=600)
     ctx.counts['traces_validated_against_impl'] = ctx.counts.get('evaluations', 0)
     ctx.extra['criteria'] = [repr(c) for c in CRITERIA]
     ctx.extra['pool'] = [repr(p) for p in POOL]
@@ -392,7 +497,7 @@ def replay(case):
         if case['verdict'] == 'wrong-selection':
             return obs[0] != 'ok' or not W.vclose(obs[1], case['expected'], rel=1e-12, abs_=1e-12), txt
         return True, txt
-    r = work_multi((0, 1)) if case['kind'] == 'multi' else work_cells((0,))
+    r = work_multi((0, 1)) if case['kind'] == 'multi' else work_extra((0,)) if case['kind'] == 'extra' else work_cells((0,))
     hits = [m for c, m in r['violations'] if c.get('formula') == case.get('formula') and c.get('rng') == case.get('rng')
             and c.get('crits') == case.get('crits') and c.get('a') == case.get('a') and c.get('b') == case.get('b')
             and c.get('crit') == case.get('crit')]
